@@ -50,8 +50,8 @@ CHECKS.update({
     },
     "C20": {
         "technique": "Coq theorems over all step sequences of the two-critical-section state machine of RequestManager (induction over the schedule) + differential correspondence of the real RequestManager.Pull driven through linearised schedules (scripted gated pull, accessor under the lock), monitor proved sound; aliasing probed by mutating every returned Files map; -race sample in thorough",
-        "text": "For every schedule the model is proved to keep at most one pull per image in flight, answer each request exactly once at the next Done of its image, hand out pairwise distinct copies and start a fresh pull after a broadcast (props/C20.v). The real code is run on all well-formed schedules up to length 5 (quick) / 7 (thorough) over 3 callers x 2 images plus random ones and compared with the model in Coq.",
-        "note": "Trusted: Coq kernel + vm_compute, Go harness (linearisation via goroutine states + accessor), Python driver. Critical sections assumed atomic; memory-level privacy and race freedom are tested under -race, not proved (partial).",
+        "text": "For every schedule the model is proved to keep at most one pull per image in flight, answer each request exactly once at the next Done of its image, hand out pairwise distinct copies and start a fresh pull after a broadcast (props/C20.v). The real code is run on all well-formed schedules up to length 5 (quick) / 7 (thorough) over 3 callers x 2 images plus random ones and compared with the model in Coq. Overlap steps stall the broadcast (extra receiver at the head of inFlight) while another caller Pulls the same image: the run is accepted only if some linearisation (Done;Req or Req;Done) of every overlap reproduces it (monitor_sound_lin). Aliasing probe: zero-length/spare-capacity/nil files, in-place appends, backing-array addresses of every returned copy.",
+        "note": "Trusted: Coq kernel + vm_compute, Go harness (linearisation via goroutine states + accessor), Python driver. Atomicity of the two lock scopes is tested by the forced overlaps (only the first send of the broadcast is a stall point), memory-level privacy by the aliasing probe, race freedom under -race: tested, not proved (partial).",
     },
 })
 
@@ -103,9 +103,9 @@ CHECKS.update({
         "note": "Trusted: Coq kernel + vm_compute; harness (abstraction functions, Store + namespace wrapper, scripted informer); Python driver. Pass-granular interleavings; cache in sync (C12); event delivery and queue->Reconcile are runtime.",
     },
     "C19": {
-        "technique": "PARTIAL: panic-site inventory regenerated from the source by a go/types translator and checked complete against a Coq table (finite-domain proof by vm_compute); Coq models Ok|Err|Panic of the stages that are PKO's own logic with total/refuted/partial theorems; structure-aware and byte-level fuzzing of the real code under recover",
-        "text": "Every potential panic site of the anchored packages is accounted for in coq/theories/NoPanic.v on every run (a new unchecked assertion/index breaks the check); the modelled stages are proved panic-free after fixes 6890742, e1805ac, a818a7e, 35e301a (refutations of the old shapes kept). ~5k (quick) / ~200k (thorough) inputs go through the real pipeline, probing, condition mapping, ObjectTemplate handling and OCI import.",
-        "note": "PARTIAL by nature: panics inside yaml, text/template, sprig, cel-go, go-containerregistry, apimachinery, nil-map writes, stack exhaustion are fuzzed only. The guard flag of the inventory is a syntactic heuristic. One finding stays open (boxcutter annotation owner strategy panics on a non-JSON owners annotation; third-party module).",
+        "technique": "PARTIAL: panic-site inventory regenerated from the source by a go/types translator (unchecked assertions, index/slice expressions, panic, Must helpers, pointer used before its error check, recursion, nil to foreign pointer/interface parameters, dereference of pointer-typed struct-field chains with nil-check dominance flag, ==/!= on two any operands) and checked complete against a Coq table (finite-domain proof by vm_compute); Coq models Ok|Err|Panic of the stages that are PKO's own logic with totality theorems (old shapes kept as _v0 refutations with repair relations); structure-aware and byte-level fuzzing of the real code under recover",
+        "text": "Every potential panic site of the anchored packages is accounted for in coq/theories/NoPanic.v on every run (a new unchecked assertion/index breaks the check); the modelled stages are proved panic-free after fixes 6890742, e1805ac, a818a7e, 35e301a (refutations of the old shapes kept). ~6.7k (quick) / ~206k (thorough) inputs (structure-aware JSONSchemaProps generator + exhaustive small-scope schema corpus, fieldsEqual shape pairs, byte-level) go through the real pipeline, CLI, probing, condition mapping, ObjectTemplate handling, annotation owner strategy and OCI import under recover and a watchdog. Sites repaired by fix commits are Fixed table entries that are no longer accepted, so a fall-back to an old shape fails the inventory.",
+        "note": "PARTIAL by nature: panics inside yaml, text/template, sprig, cel-go, go-containerregistry, apimachinery, nil dereference of parameters/locals/call results, nil-map writes, division, conversions, interface-typed map keys, stack exhaustion are fuzzed only. ByConstruction/Library/Validated verdicts are reviewed claims, proved only where a stage model exists. The guard flag of the inventory is a syntactic heuristic. One finding stays open (boxcutter annotation owner strategy panics on a non-JSON owners annotation; third-party module).",
     },
 })
 
